@@ -95,3 +95,97 @@ func HarvestedDoc(r *Rand) (GenDoc, bool) {
 	return GenDoc{Bytes: []byte(sb.String()), URL: Pick(r, []string{"http://example.com/path/toward/news.php", "http://www.test.com/foo/2", "http://example.com/story/page/2", ""}),
 		Origin: fmt.Sprintf("harvest:%d", i), Features: []string{"harvested-fragment"}, UTF8: true}, true
 }
+
+// Vocab holds tokens harvested from the string literals of the library's own
+// non-test source: the attribute names, class names, tag names, meta
+// properties and URL fragments the code looks for (including pieces of regexp
+// alternations such as `comment|sidebar|footer`). Because it is harvested
+// from the tree under check, a change that starts to care about a new name
+// brings that name into the workload by itself.
+var (
+	VocabNames  []string // plausible attribute / class / id / tag names
+	VocabColon  []string // tokens containing ':' (meta properties, schemes)
+	VocabValues []string // any short token, usable as attribute value or text
+)
+
+func HarvestVocabulary(root string) int {
+	names, colon, values := map[string]bool{}, map[string]bool{}, map[string]bool{}
+	add := func(tok string) {
+		tok = strings.TrimSpace(tok)
+		if len(tok) < 2 || len(tok) > 40 {
+			return
+		}
+		for _, c := range tok {
+			if c < 0x21 || c > 0x7e || c == '"' || c == '<' || c == '>' || c == '\'' || c == '\\' || c == '`' {
+				return
+			}
+		}
+		values[tok] = true
+		if strings.Contains(tok, ":") {
+			colon[tok] = true
+			return
+		}
+		ok := true
+		for _, c := range tok {
+			if !(c >= 'a' && c <= 'z' || c >= 'A' && c <= 'Z' || c >= '0' && c <= '9' || c == '-' || c == '_') {
+				ok = false
+			}
+		}
+		if ok && !(tok[0] >= '0' && tok[0] <= '9') {
+			names[tok] = true
+		}
+	}
+	filepath.Walk(root, func(path string, info os.FileInfo, err error) error {
+		if err != nil {
+			return nil
+		}
+		if info.IsDir() {
+			n := info.Name()
+			if n == ".git" || strings.HasPrefix(n, ".verif") || n == "example" || n == "scripts" || n == "testutil" {
+				return filepath.SkipDir
+			}
+			return nil
+		}
+		if !strings.HasSuffix(path, ".go") || strings.HasSuffix(path, "_test.go") {
+			return nil
+		}
+		fset := token.NewFileSet()
+		f, err := parser.ParseFile(fset, path, nil, 0)
+		if err != nil {
+			return nil
+		}
+		ast.Inspect(f, func(n ast.Node) bool {
+			if is, ok := n.(*ast.ImportSpec); ok && is != nil {
+				return false
+			}
+			bl, ok := n.(*ast.BasicLit)
+			if !ok || bl.Kind != token.STRING {
+				return true
+			}
+			s, err := strconv.Unquote(bl.Value)
+			if err != nil || len(s) > 4000 {
+				return true
+			}
+			add(s)
+			// pieces of regexp alternations and separator-joined lists
+			for _, piece := range strings.FieldsFunc(s, func(r rune) bool {
+				return r == '|' || r == '(' || r == ')' || r == ' ' || r == ',' || r == '[' || r == ']' || r == '^' || r == '$' || r == '?' || r == '*' || r == '+' || r == '=' || r == '.' || r == '\\' || r == '"' || r == '\''
+			}) {
+				add(piece)
+			}
+			return true
+		})
+		return nil
+	})
+	VocabNames, VocabColon, VocabValues = keys(names), keys(colon), keys(values)
+	return len(VocabValues)
+}
+
+func keys(m map[string]bool) []string {
+	out := make([]string, 0, len(m))
+	for k := range m {
+		out = append(out, k)
+	}
+	sort.Strings(out)
+	return out
+}
